@@ -998,6 +998,31 @@ fn c02_sequences(ctx: &mut Ctx) -> Search {
 
 pub fn c02(ctx: &mut Ctx) -> Search {
     let t = ctx.thorough;
+    // constructed ciphertexts whose Poly1305 accumulator sits on its edge values (p-2 .. 2^130-1, pending carries): the
+    // genuine box must be accepted, the box with tag -5 / +5 (what a skipped or doubled final subtraction of p yields) refused
+    for _ in 0..(if t { 6 } else { 2 }) {
+        let (k, n) = (ctx.rng.arr::<32>(), ctx.rng.arr::<24>());
+        for m in poly1305_edge_plaintexts(&mut ctx.rng, &k, &n, t) {
+            let c = so::secretbox_easy(&m, &n, &k);
+            ctx.run("secretbox_open", Input::new().b("k", &k).b("n", &n).b("c", &c))?;
+            for delta in [5u128, (!5u128).wrapping_add(1)] {
+                let mut f = c.clone();
+                let mut tag = [0u8; 16];
+                tag.copy_from_slice(&f[..16]);
+                let v = u128::from_le_bytes(tag).wrapping_add(delta);
+                f[..16].copy_from_slice(&v.to_le_bytes());
+                ctx.run("secretbox_open", Input::new().b("k", &k).b("n", &n).b("c", &f))?;
+            }
+        }
+        let (ska, skb) = (ctx.rng.arr::<32>(), ctx.rng.arr::<32>());
+        if let Some(shared) = so::box_beforenm(&so::scalarmult_base(&skb), &ska) {
+            for m in poly1305_edge_plaintexts(&mut ctx.rng, &shared, &n, t) {
+                if let Some(c) = so::box_easy(&m, &n, &so::scalarmult_base(&skb), &ska) {
+                    ctx.run("box_open", Input::new().b("pk", &so::scalarmult_base(&ska)).b("sk", &skb).b("n", &n).b("c", &c))?;
+                }
+            }
+        }
+    }
     let lens: Vec<usize> = if t { vec![0, 1, 15, 16, 17, 33, 64, 80] } else { vec![0, 1, 17, 64] };
     // Phase 0: the untampered input and every one-bit corruption, for all
     // message lengths.  Phase 1: truncations and extensions (same data).
